@@ -1356,3 +1356,42 @@ def split_graphs_keep_sharing(ctx: Ctx, modules: tuple[str, ...] = ("cirkit.back
                 out.append(viol("R14v", f.qualname, inst, f"{len(calls)} sub-graphs of `{g}` become the parameters of different layers and nothing accounts for nodes they share: a tied factor (both Kronecker operands on one tensor node) is allocated once per layer when the layers are folded, so fold=True, optimize=True computes A1 (x) A2 with two independent tensors", loc))
     out.append(ok("R14v", "cirkit.backend.torch.optimization", "graph-splits", f"{n_fn} rewrite(s) splitting one parameter graph over several layers", "", nontrivial=False))
     return out
+
+
+# ------------------------------------------------------------------------------------------ R14w
+def arrays_copied_as_given(ctx: Ctx, modules: tuple[str, ...] = ("cirkit.backend.torch.initializers", "cirkit.backend.torch.rules.initializers")) -> list[Ob]:
+    """R14w -- an array constant is copied exactly, whatever its memory layout and whenever it is
+    (re-)initialised.
+
+    (a) ``torch.from_numpy`` refuses arrays with negative strides (``a[::-1]``): what it is given has
+    to pass through ``np.ascontiguousarray`` / ``.copy()`` / ``np.array(..)`` first.  (b) An in-place
+    initialiser (a function filling a tensor it is handed) takes the data type from *that tensor*: a
+    conversion to ``torch.get_default_dtype()`` on the way rounds the values through whatever the
+    global default is at reset time, which need not be the dtype the parameter was compiled with."""
+    out: list[Ob] = []
+    n_from = 0
+    for f in ctx.repo.iter_functions():
+        if not f.module.name.startswith(modules):
+            continue
+        ld = LocalDefs(f.node)
+        fills_given_tensor = any(p.annotation is not None and unparse(p.annotation).endswith("Tensor") for p in f.params[:1])
+        for n in walk_no_nested(f.node):
+            if isinstance(n, ast.Call) and (dotted(n.func) or "").endswith("from_numpy") and n.args:
+                n_from += 1
+                loc = f"{f.module.relpath}:{n.lineno}"
+                exprs = [n.args[0], *ld.expand(n.args[0])]
+                safe = any(isinstance(c, ast.Call) and ((dotted(c.func) or "").split(".")[-1] in ("ascontiguousarray", "array", "copy", "asarray_chkfinite", "require") ) for e in exprs for c in ast.walk(e))
+                if safe:
+                    out.append(ok("R14w", f.qualname, "contiguous-before-from_numpy", "the array is made contiguous / copied before torch wraps it", loc))
+                else:
+                    out.append(viol("R14w", f.qualname, "contiguous-before-from_numpy", f"`{unparse(n)[:60]}` wraps the array as it is: torch.from_numpy raises for a view with negative strides (a[::-1]), so such a constant cannot be compiled", loc))
+        if fills_given_tensor:
+            uses_default = [n for n in walk_no_nested(f.node) if isinstance(n, ast.Call) and (dotted(n.func) or "").endswith("get_default_dtype")]
+            loc = f.loc
+            if uses_default:
+                out.append(viol("R14w", f.qualname, "dtype-of-destination", "an initialiser filling a given tensor converts through torch.get_default_dtype(): the values are rounded through the global default at reset time instead of being converted once to the tensor's own dtype", f"{f.module.relpath}:{uses_default[0].lineno}"))
+            else:
+                out.append(ok("R14w", f.qualname, "dtype-of-destination", "no detour through the global default dtype", loc))
+    if n_from == 0:
+        out.append(unres("R14w", "cirkit.backend.torch.initializers", "contiguous-before-from_numpy", "no torch.from_numpy in the initialiser modules (another formulation): no verdict", ""))
+    return out
